@@ -18,6 +18,8 @@ PATHO = {"path1": lambda n: "*a **a\n" * n + "b " + "a** a*\n" * n, "path2": lam
          # many closed spans in ONE paragraph (a single long sibling chain)
          "strongs": lambda n: "**a** " * (4 * n) + "\n", "emphs": lambda n: "*a* " * (4 * n) + "\n", "codes": lambda n: "`a` " * (4 * n) + "\n", "links": lambda n: "[a](b) " * (4 * n) + "\n",
          "critics": lambda n: "{++a++} " * (4 * n) + "\n",
+         # many uses of a defined abbreviation / glossary term on one line (the automatic search works per text token)
+         "abbrline": lambda n: "[>ab]: Abbr\n\n" + "ab " * (4 * n) + "\n", "glossline": lambda n: "[?term]: Gloss\n\n" + "term x " * (4 * n) + "\n",
          "mixed": lambda n: "[ ( ]" + "[" * (20 * n) + ")" * (20 * n) + "\n"}
 
 
@@ -90,6 +92,8 @@ def run(tier, seed):
     # must still end; one back reference per note gives a chain (bounded by the export depth guard), two give a tree (listed finding)
     CYC = {"self-footnote": "x[^a]\n\n[^a]: one [^a]\n", "self-citation": "x[#a]\n\n[#a]: one [#a]\n", "self-glossary": "x[?a]\n\n[?a]: one [?a]\n",
            "two-cycle": "x[^a] y[^b]\n\n[^a]: to b [^b]\n\n[^b]: back [^a]\n", "mixed-cycle": "x[^a]\n\n[^a]: cite [#c]\n\n[#c]: gloss [?g]\n\n[?g]: note [^a]\n",
+           "self-in-emphasis": "Text *em[^a]*.\n\n[^a]: Note *that cites itself[^a]*.\n", "self-in-quote": "> Text[^a].\n\n[^a]: Note that cites itself *again[^a]*.\n",
+           "self-in-strong": "**a *em[^a]* b**\n\n* item[^a]\n\n[^a]: n **s *e[^a]* s**\n",
            "double-back": "x[^a]\n\n[^a]: to b [^b]\n\n[^b]: back [^a] [^a]\n"}
     for nm, doc in CYC.items():
         for w in ("html", "latex", "fodt", "beamer", "memoir", "opml"):
